@@ -308,8 +308,19 @@ func (cs *Contracts) ReadFile(path, pkgPath string) error {
 				}
 				cur.Ensures = append(cur.Ensures, c)
 			case "modifies":
-				for _, it := range strings.Split(rest, ",") {
-					cur.Modifies = append(cur.Modifies, strings.TrimSpace(it))
+				depth, start := 0, 0
+				for i := 0; i <= len(rest); i++ {
+					if i < len(rest) && (rest[i] == '(' || rest[i] == '[') {
+						depth++
+					} else if i < len(rest) && (rest[i] == ')' || rest[i] == ']') {
+						depth--
+					}
+					if i == len(rest) || (rest[i] == ',' && depth == 0) {
+						if it := strings.TrimSpace(rest[start:i]); it != "" {
+							cur.Modifies = append(cur.Modifies, it)
+						}
+						start = i + 1
+					}
 				}
 			case "effects":
 				cur.Effects = append(cur.Effects, strings.Fields(strings.ReplaceAll(rest, ",", " "))...)
